@@ -266,6 +266,19 @@ def check_to_string(f, fn, rep, analyze_fn):
                     for x in c0.args:
                         if x.op == "agg" and x.args[0] == "closure" and x.args[1] == g["qual"] and any(y.is_ref_to_param(1) or y is T.param(1) for y in x.args[4]):
                             ok3 = True
+    if not ok3:
+        # ... or in a private helper that receives the parameter by value (`name_or_hex(X_to_str(v), "X", v)`)
+        from ..engine import program
+        prog_ = program(f)
+        for c in calls:
+            lf_ = prog_.local_fn(c.callee)
+            if lf_ is None or prog_.known_name(lf_) or lf_["kind"] == "Closure":
+                continue
+            for k_, a_ in enumerate(c.args):
+                if a_ is T.param(1):
+                    han = analyze_fn(f, lf_)
+                    if any("fmt::rt::Argument" in c2.declared_norm and c2.args and c2.args[0].is_ref_to_param(k_ + 1) for c2 in han.calls()):
+                        ok3 = True
     rep.require(ok3, "to-string", fn["qual"] + ":fallback", w, "format!(.. {param} ..)",
                 "%s: the fallback text is not formatted from the numeric parameter" % fn["qual"])
 
